@@ -662,6 +662,7 @@ class PCBO(PUBO):
         """
         # use self.__class__ here because PCSO uses this code as well.
         d = super(self.__class__, self).subs(*args, **kwargs)
+        d._ancilla = self._ancilla
         d._constraints = {
             k: [P.subs(*args, **kwargs) for P in v]
             for k, v in self._constraints.items()
